@@ -4,9 +4,14 @@
 (* complex-rational arithmetic.                                            *)
 (*                                                                         *)
 (* Mechanism (shaped like arburg): forward / backward error arrays ef, eb  *)
-(* updated in place, the denominator recursion                             *)
+(* updated in place, the denominator summed over the current error arrays  *)
+(*      den <- sum_{j>k} |ef[j]|^2 + |eb[j-1]|^2                           *)
+(* (since the repair d8be8e1; until then Marple's order recursion          *)
 (*      den <- (1-|k|^2) den - |ef[k]|^2 - |eb[N-1]|^2,                    *)
-(* the Levinson step-up of the AR vector, rho <- (1-|k|^2) rho.            *)
+(* which is the same number in exact arithmetic - invariant                *)
+(* MarpleRecursionIsExact - and loses every digit in floating point when   *)
+(* |k| approaches one), the Levinson step-up of the AR vector,             *)
+(* rho <- (1-|k|^2) rho.                                                   *)
 (*                                                                         *)
 (* Envelope (C13), evaluated from the *definition*, not the recursion:     *)
 (*   - the errors are those of the prediction-error filter [1, a] applied  *)
@@ -61,7 +66,7 @@ BwdErr(c, n) == CSumSeq([j \in 1..(Len(c) + 1) |-> CMul(CConj(Coef(c, j - 1)), x
 Stage ==
     LET k    == Len(a)
         num  == CSumFn(LAMBDA j : CMul(ef[j], CConj(eb[j - 1])), k + 2, N)   \* 1-based j = k+2..N
-        nden == RSub(RSub(RMul(temp, den), CAbs2(ef[k + 1])), CAbs2(eb[N]))
+        nden == RSumFn(LAMBDA j : RAdd(CAbs2(ef[j]), CAbs2(eb[j - 1])), k + 2, N)
         kp   == CNeg(CScale(RDiv(RInt(2), nden), num))
         ntmp == RSub(One, CAbs2(kp))
         nrho == RMul(ntmp, rho)
@@ -110,11 +115,18 @@ ErrorsAreFilterOutputs ==
                   /\ CEqOrOvf(ef[n + 1], FwdErr(a, n))
                   /\ CEqOrOvf(eb[n + 1], BwdErr(a, n))
 
-\* the denominator recursion equals the summed forward+backward energy of the next stage
+\* the denominator of the next stage (summed over the mechanism arrays) is the forward+backward energy by definition
 DenominatorIsEnergy ==
     (Running /\ Len(a) < N - 1) =>
-        REqOrOvf(RSub(RSub(RMul(temp, den), CAbs2(ef[Len(a) + 1])), CAbs2(eb[N])),
+        REqOrOvf(RSumFn(LAMBDA j : RAdd(CAbs2(ef[j]), CAbs2(eb[j - 1])), Len(a) + 2, N),
                  RSumFn(LAMBDA n : RAdd(CAbs2(FwdErr(a, n)), CAbs2(BwdErr(a, n - 1))), Len(a) + 1, N - 1))
+
+\* Marple's order recursion gives the same number in exact arithmetic (it is an identity, not an approximation:
+\* the defect repaired by d8be8e1 was purely one of floating point cancellation in 1-|k|^2)
+MarpleRecursionIsExact ==
+    (Running /\ Len(a) < N - 1) =>
+        REqOrOvf(RSub(RSub(RMul(temp, den), CAbs2(ef[Len(a) + 1])), CAbs2(eb[N])),
+                 RSumFn(LAMBDA j : RAdd(CAbs2(ef[j]), CAbs2(eb[j - 1])), Len(a) + 2, N))
 
 \* each k is the minimiser of the stage's forward+backward error energy
 StageOptimal == Running => (CBad(optres) \/ CIsZero(optres))
